@@ -169,13 +169,43 @@ pub mod csv {
         dir_path.join(fname_only)
     }
 
+    // Rates are never written into the live file. See write_rates.
+    fn rates_csv_tmp_file_path(dir_path: &std::path::Path, year: u32) -> PathBuf {
+        let fname_only = format!("rates-{}.csv.tmp", year);
+        dir_path.join(fname_only)
+    }
+
     fn open_rates_csv_file_write(
         dir_path: &std::path::Path,
-        year: u32,
+        file_path: &std::path::Path,
     ) -> Result<File, SError> {
-        let file_path = rates_csv_file_path(dir_path, year);
         crate::util::os::mk_writable_dir(dir_path).map_err(|e| e.to_string())?;
         File::create(file_path).map_err(|e| e.to_string())
+    }
+
+    // Streams all rates to the file at tmp_path, and makes sure they have
+    // reached the disk.
+    fn write_rates_csv_file(
+        dir_path: &std::path::Path,
+        tmp_path: &std::path::Path,
+        rates: &Vec<DailyRate>,
+    ) -> Result<(), SError> {
+        let file = open_rates_csv_file_write(dir_path, tmp_path)?;
+
+        // CSV file of date,exchange_rate
+
+        let mut csv_w = csv::Writer::from_writer(file);
+        for rate in rates {
+            csv_w
+                .write_record(vec![
+                    rate.date.to_string(),
+                    rate.foreign_to_local_rate.to_string(),
+                ])
+                .map_err(|e| e.to_string())?;
+        }
+        csv_w.flush().map_err(|e| e.to_string())?;
+        let file = csv_w.into_inner().map_err(|e| e.to_string())?;
+        file.sync_all().map_err(|e| e.to_string())
     }
 
     fn open_rates_csv_file_read(
@@ -207,20 +237,22 @@ pub mod csv {
                     "<no path ???>"
                 }
             );
-            let file = open_rates_csv_file_write(&self.dir_path, year)?;
-
-            // CSV file of date,exchange_rate
-
-            let mut csv_w = csv::Writer::from_writer(file);
-            for rate in rates {
-                csv_w
-                    .write_record(vec![
-                        rate.date.to_string(),
-                        rate.foreign_to_local_rate.to_string(),
-                    ])
-                    .map_err(|e| e.to_string())?;
+            // Write the whole year to a temporary file, and only move it over
+            // the live file once it is complete. If we were to write into the
+            // live file, being killed (or running out of disk space) part-way
+            // through would leave a file whose last row is cut short, but
+            // still parses (eg. "2022-01-14,1.27" for a rate of 1.2704), and
+            // later runs would silently use that rate.
+            let file_path = rates_csv_file_path(&self.dir_path, year);
+            let tmp_path = rates_csv_tmp_file_path(&self.dir_path, year);
+            let r = write_rates_csv_file(&self.dir_path, &tmp_path, rates)
+                .and_then(|_| {
+                    std::fs::rename(&tmp_path, &file_path).map_err(|e| e.to_string())
+                });
+            if r.is_err() {
+                // Best effort. A leftover temporary file is never read.
+                let _ = std::fs::remove_file(&tmp_path);
             }
-            let r = csv_w.flush().map_err(|e| e.to_string());
             if r.is_ok() {
                 trace!("CsvRatesCache::write_rates flushed ok");
             } else {
